@@ -287,41 +287,49 @@ struct CountPolicy {
   static int Release(int* v) { int t = 0; std::swap(*v, t); if (t) released()[t]++; return t; }
   static constexpr std::uint64_t HandleType() { return 9; }
 };
-using UH = nop::UniqueHandle<CountPolicy>;
-struct DUH : UH { using UH::UH; };          // a class derived from UniqueHandle<Policy>, the shape of UniqueFileHandle: moving it into a UniqueHandle<Policy> transfers ownership
+// a second policy: derived from the library's DefaultHandlePolicy<int, -1> (empty value -1, so 0 is a real resource - as for file descriptors), inheriting
+// Default / IsValid / Release and adding only the Close that counts
+struct DerivedPolicy : nop::DefaultHandlePolicy<int, -1> {
+  static std::unordered_map<int, int>& closed() { static std::unordered_map<int, int> c; return c; }
+  static std::unordered_map<int, int>& released() { static std::unordered_map<int, int> c; return c; }
+  static void Close(int* v) { if (*v != -1) closed()[*v]++; *v = -1; }
+  static constexpr std::uint64_t HandleType() { return 9; }
+};
+template <typename Pol> struct HUH : nop::UniqueHandle<Pol> { using nop::UniqueHandle<Pol>::UniqueHandle; };          // a class derived from UniqueHandle<Policy>, the shape of UniqueFileHandle: moving it into a UniqueHandle<Policy> transfers ownership
 enum HOp { H_NEW, H_MOVE_ASSIGN, H_MOVE_CTOR, H_RELEASE, H_CLOSE, H_DESTROY, H_ASSIGN_TEMP, H_ASSIGN_EMPTY, H_CTOR_FROM_DERIVED, H_ASSIGN_FROM_DERIVED, H_NOPS };
 static const char* const kHNames[] = {"destroy+construct(id)", "move-assign", "move-construct(temp)", "release()", "close()", "destroy+construct()", "= UniqueHandle{id}", "= UniqueHandle{}", "destroy+move-construct(from derived handle owning id)", "= std::move(derived handle owning id)"};
-struct HandleRun {
+template <typename Pol, int kEmpty> struct HandleRunT {
+  using UH = nop::UniqueHandle<Pol>; using DUH = HUH<Pol>;
   static const int N = 3;
-  UH* h[N]; int own[N] = {0, 0, 0}; int next_id = 1; std::set<int> issued, rel, must_closed;
+  UH* h[N]; int own[N] = {kEmpty, kEmpty, kEmpty}; int next_id = kEmpty + 1; std::set<int> issued, rel, must_closed;
   std::string err;
   void fail(const std::string& key, const std::string& what) { if (err.empty()) err = key + "|" + what; }
-  HandleRun() { CountPolicy::closed().clear(); CountPolicy::released().clear(); for (int i = 0; i < N; i++) h[i] = new UH(); }
-  ~HandleRun() { for (int i = 0; i < N; i++) delete h[i]; }
-  void drop(int id) { if (id) must_closed.insert(id); }
+  HandleRunT() { Pol::closed().clear(); Pol::released().clear(); for (int i = 0; i < N; i++) h[i] = new UH(); }
+  ~HandleRunT() { for (int i = 0; i < N; i++) delete h[i]; }
+  void drop(int id) { if (id != kEmpty) must_closed.insert(id); }
   void step(const OpRec& q) {
     int a = q.a, b = q.b;
     switch (q.op) {
       case H_NEW: { int id = next_id++; issued.insert(id); delete h[a]; drop(own[a]); h[a] = new UH(id); own[a] = id; } break;
-      case H_MOVE_ASSIGN: *h[a] = std::move(*h[b]); if (a != b) { drop(own[a]); own[a] = own[b]; own[b] = 0; } break;
-      case H_MOVE_CTOR: { UH t(std::move(*h[b])); drop(own[b]); own[b] = 0; } break;               // the temporary closes what it took when it dies
-      case H_RELEASE: { int got = h[a]->release(); if (got != own[a]) fail("model:UniqueHandle.release", fmt("release() returned %d, the handle owned %d", got, own[a])); if (own[a]) rel.insert(own[a]); own[a] = 0; } break;
-      case H_CLOSE: h[a]->close(); drop(own[a]); own[a] = 0; break;
-      case H_DESTROY: delete h[a]; drop(own[a]); h[a] = new UH(); own[a] = 0; break;
+      case H_MOVE_ASSIGN: *h[a] = std::move(*h[b]); if (a != b) { drop(own[a]); own[a] = own[b]; own[b] = kEmpty; } break;
+      case H_MOVE_CTOR: { UH t(std::move(*h[b])); drop(own[b]); own[b] = kEmpty; } break;               // the temporary closes what it took when it dies
+      case H_RELEASE: { int got = h[a]->release(); if (got != own[a]) fail("model:UniqueHandle.release", fmt("release() returned %d, the handle owned %d", got, own[a])); if (own[a] != kEmpty) rel.insert(own[a]); own[a] = kEmpty; } break;
+      case H_CLOSE: h[a]->close(); drop(own[a]); own[a] = kEmpty; break;
+      case H_DESTROY: delete h[a]; drop(own[a]); h[a] = new UH(); own[a] = kEmpty; break;
       case H_ASSIGN_TEMP: { int id = next_id++; issued.insert(id); *h[a] = UH(id); drop(own[a]); own[a] = id; } break;
-      case H_ASSIGN_EMPTY: *h[a] = UH(); drop(own[a]); own[a] = 0; break;
-      case H_CTOR_FROM_DERIVED: { int id = next_id++; issued.insert(id); delete h[a]; drop(own[a]); { DUH d(id); h[a] = new UH(std::move(d)); if (d.get() != 0) fail("model:UniqueHandle.moved-from", fmt("a derived handle moved into a UniqueHandle still holds %d", d.get())); } own[a] = id; } break;
-      case H_ASSIGN_FROM_DERIVED: { int id = next_id++; issued.insert(id); { DUH d(id); *h[a] = std::move(d); if (d.get() != 0) fail("model:UniqueHandle.moved-from", fmt("a derived handle move-assigned into a UniqueHandle still holds %d", d.get())); } drop(own[a]); own[a] = id; } break;
+      case H_ASSIGN_EMPTY: *h[a] = UH(); drop(own[a]); own[a] = kEmpty; break;
+      case H_CTOR_FROM_DERIVED: { int id = next_id++; issued.insert(id); delete h[a]; drop(own[a]); { DUH d(id); h[a] = new UH(std::move(d)); if (d.get() != kEmpty) fail("model:UniqueHandle.moved-from", fmt("a derived handle moved into a UniqueHandle still holds %d", d.get())); } own[a] = id; } break;
+      case H_ASSIGN_FROM_DERIVED: { int id = next_id++; issued.insert(id); { DUH d(id); *h[a] = std::move(d); if (d.get() != kEmpty) fail("model:UniqueHandle.moved-from", fmt("a derived handle move-assigned into a UniqueHandle still holds %d", d.get())); } drop(own[a]); own[a] = id; } break;
     }
     check(false);
   }
   void check(bool final) {
     for (int i = 0; i < N; i++) {
       if (h[i]->get() != own[i]) fail("model:UniqueHandle.value", fmt("handle %d holds %d, model says %d", i, h[i]->get(), own[i]));
-      if ((bool)*h[i] != (own[i] != 0)) fail("model:UniqueHandle.bool", "operator bool disagrees with ownership");
+      if ((bool)*h[i] != (own[i] != kEmpty)) fail("model:UniqueHandle.bool", "operator bool disagrees with ownership");
     }
     for (int id : issued) {
-      int c = CountPolicy::closed().count(id) ? CountPolicy::closed()[id] : 0;
+      int c = Pol::closed().count(id) ? Pol::closed()[id] : 0;
       bool owned = false; for (int i = 0; i < N; i++) if (own[i] == id) owned = true;
       if (c > 1) fail("policy:UniqueHandle.closed-twice", fmt("resource %d closed %d times", id, c));
       if (rel.count(id) && c > 0) fail("policy:UniqueHandle.closed-after-release", fmt("resource %d was released and later closed", id));
@@ -330,8 +338,9 @@ struct HandleRun {
       if (final && !rel.count(id) && !owned && c != 1) fail("policy:UniqueHandle.leaked", fmt("resource %d closed %d times over its life", id, c));
     }
   }
-  void finish() { for (int i = 0; i < N; i++) { delete h[i]; drop(own[i]); own[i] = 0; h[i] = new UH(); } check(true); }
+  void finish() { for (int i = 0; i < N; i++) { delete h[i]; drop(own[i]); own[i] = kEmpty; h[i] = new UH(); } check(true); }
 };
+using HandleRun = HandleRunT<CountPolicy, 0>; using HandleRunDerived = HandleRunT<DerivedPolicy, -1>;
 static std::vector<OpRec> handle_alphabet() {
   std::vector<OpRec> al;
   for (int a = 0; a < HandleRun::N; a++) {
@@ -346,8 +355,8 @@ static std::vector<OpRec> handle_alphabet() {
 
 // =================================================================== generic history driver
 template <typename Run> static void finish_run(Run&, bool) {}
-struct HandleRun;
 template <> void finish_run<HandleRun>(HandleRun& r, bool f);
+template <> void finish_run<HandleRunDerived>(HandleRunDerived& r, bool f);
 template <typename Run>
 static void run_histories(const char* type, const char* prop, const std::vector<OpRec>& al, const char* const* names, int exh_len, uint64_t nrandom, int rnd_maxlen, bool with_finish) {
   const Args& ar = args();
@@ -400,6 +409,7 @@ static void run_histories(const char* type, const char* prop, const std::vector<
   if (rep().want_sample(type, 1)) { std::vector<OpRec> s; for (size_t i = 0; i < 4 && i < A; i++) s.push_back(al[(i * 7) % A]); rep().sample(type, J().s("object", type).raw("history", seq_json(s, names)).u("alphabet", A).str(), 1); }
 }
 template <> void finish_run<HandleRun>(HandleRun& r, bool f) { if (f) r.finish(); }
+template <> void finish_run<HandleRunDerived>(HandleRunDerived& r, bool f) { if (f) r.finish(); }
 
 // =================================================================== C13: comparisons and messages
 template <typename A, typename B> static void cmp_pair(const char* what, const nop::Optional<A>& a, const nop::Optional<B>& b, int ka, int kb) {
@@ -617,6 +627,8 @@ int vf::engine_main() {
   if (a.prop == "C15") {
     auto al = handle_alphabet();
     if (a.only_type.empty() || a.only_type == "UniqueHandle") run_histories<HandleRun>("UniqueHandle", "c15", al, kHNames, th ? 5 : 4, th ? 1000000 : 40000, 40, true);
+    // the same histories with a policy derived from the library's DefaultHandlePolicy<int, -1> (shorter exhaustive part: the alphabet is the same)
+    if (a.only_type.empty() || a.only_type == "UniqueHandle<derived policy>") run_histories<HandleRunDerived>("UniqueHandle<derived policy>", "c15", al, kHNames, th ? 4 : 3, th ? 400000 : 20000, 40, true);
     if (a.only_type.empty() || a.only_type != "UniqueHandle") c15_transfer();
     return 0;
   }
